@@ -76,6 +76,13 @@ def run_native(script, args, timeout=3600):
     try:
         res = json.loads(lines[-1])
     except Exception:
+        # the harness died.  If the innermost frame of the traceback is in the code under test, an exception escaped from the real
+        # code on an input the harness holds to be valid: that is a finding of the bounded stand-in, not a checker error.
+        frames = re.findall(r'File "([^"]+)", line (\d+), in (\S+)', p.stderr)
+        if frames and os.path.abspath(frames[-1][0]).startswith(os.path.abspath(repo.REPO) + os.sep) and "--replay" not in args:
+            last = [l for l in p.stderr.strip().splitlines() if l.strip()][-1]
+            return {"violations": [{"seed": None, "what": "the real code raised inside the harness: %s (%s:%s in %s)" % (last[:200], os.path.relpath(frames[-1][0], repo.REPO), frames[-1][1], frames[-1][2]),
+                                    "site": "exception escaping %s" % frames[-1][2]}], "bounded": [], "rc": p.returncode}
         return {"status": "error", "detail": (p.stdout + p.stderr)[-3000:], "rc": p.returncode}
     res["rc"] = p.returncode
     return res
